@@ -352,6 +352,8 @@ pub fn history(enc: &'static Encoding, prof: Profile) -> impl Strategy<Value = D
                 }
             })
             .collect();
-        DecHistory { enc, mode, sink, repl, stream, cuts, last_on_empty, caps, fill, align: (align & 15) as usize }
+        // every fifth history mixes the output methods call by call
+        let sinks_per_call = if prof.sinks.len() > 1 && bomx % 5 == 0 { (0..3).map(|i| prof.sinks[((bomx >> (8 + 4 * i)) as usize) % prof.sinks.len()]).collect() } else { Vec::new() };
+        DecHistory { enc, mode, sink, repl, stream, cuts, last_on_empty, caps, fill, align: (align & 15) as usize, sinks_per_call }
     })
 }
